@@ -62,86 +62,120 @@ Fixpoint digits (fuel n : nat) (acc : string) : string :=
   end.
 Definition fresh (k : nat) : string := String "t" (digits (S k) k "").
 
-(** * sqlglot's qualify, as far as it depends on the schema cache:
-    over a cached table name (not shadowed by a CTE of the query) `*` is expanded to the cached columns
-    and a column the cache does not list is an error *)
-Definition src_cols (cache : list (string * list string)) (U : list string) (f : from) : option (list string) :=
+(** * sqlglot's qualify, as far as it depends on the schema cache
+    - the columns of a source are known when it is a cached name, a CTE / sub-query whose own columns are
+      known, or a VALUES literal;
+    - over a source with known columns `*` is expanded to them and a column they do not list is an error;
+    - when the cache is not empty, an *unqualified* column over a source with unknown columns (a real table
+      the cache has not seen, directly or through `*`) cannot be resolved: error. *)
+Definition colinfo := string -> option (list string).
+
+Fixpoint out_cols_sq (info : colinfo) (q : sq) : option (list string) :=
+  match q with
+  | QSel f _ (Some items) _ => Some (map snd items)
+  | QSel f _ None _ => from_cols info f
+  | QAgg _ _ ks ag => Some (map snd ks ++ map snd ag)
+  end
+with from_cols (info : colinfo) (f : from) : option (list string) :=
   match f with
-  | FName n => if mem n U then None else assoc n cache
-  | _ => None
-  end.
-Definition scope_cols cache U (f : from) : option (list string) :=
-  match f with
-  | FName _ => src_cols cache U f
+  | FName n => info n
+  | FVal fr => Some (cols fr)
+  | FSub q => out_cols_sq info q
   | FJoin l la r ra _ =>
-      match src_cols cache U l, src_cols cache U r with
+      match from_cols info l, from_cols info r with
       | Some a, Some b => Some (qual la a ++ qual ra b)
       | _, _ => None
       end
-  | _ => None
   end.
-Definition is_name (f : from) : bool := match f with FName _ => true | _ => false end.
 
-Fixpoint qualify_sq (cache : list (string * list string)) (U : list string) (q : sq) : option sq :=
+Definition cache_cols (cache : list (string * list string)) (n : string) : option (list string) :=
+  match assoc n cache with Some [] => None | o => o end.
+
+(** a CTE body sees the cache and the CTEs defined before it (sqlglot's scopes are built in order; the
+    CTE's own name inside its body still means the outer table) *)
+Definition info_upd (info : colinfo) (n : string) (v : option (list string)) : colinfo :=
+  fun m => if String.eqb n m then v else info m.
+
+Definition is_join (f : from) : bool := match f with FJoin _ _ _ _ _ => true | _ => false end.
+Definition nonempty {A} (l : list A) : bool := match l with [] => false | _ => true end.
+
+(** a qualified reference a.c is checked against side a when that side's columns are known *)
+Definition side_ok (info : colinfo) (s : from) (a : string) (ref : string) : bool :=
+  if String.prefix (String.append a ".") ref
+  then match from_cols info s with Some cs => mem ref (qual a cs) | None => true end
+  else true.
+Definition refs_ok (info : colinfo) (schema_nonempty : bool) (f : from) (refs : list string) : bool :=
+  match f with
+  | FJoin l la r ra _ => forallb (fun x => side_ok info l la x && side_ok info r ra x) refs
+  | _ => match from_cols info f with
+         | Some cs => forallb (fun x => mem x cs) refs
+         | None => negb (schema_nonempty && nonempty refs)
+         end
+  end.
+
+Definition sel_refs (w : list expr) (sel : option (list (expr * string))) : list string :=
+  flat_map ecols w ++ match sel with Some items => flat_map (fun it => ecols (fst it)) items | None => [] end.
+Definition agg_refs (w : list expr) (ks : list (string * string)) (ag : list (aggfn * string)) : list string :=
+  flat_map ecols w ++ map fst ks
+  ++ flat_map (fun a => match fst a with ASum c => [c] | ACountStar => [] end) ag.
+
+Fixpoint qualify_sq (info : colinfo) (ne : bool) (q : sq) : option sq :=
   match q with
   | QSel f w sel d =>
-      match qualify_from cache U f with
+      match qualify_from info ne f with
       | None => None
       | Some f' =>
-          match scope_cols cache U f with
-          | Some cs =>
-              if forallb (cols_in cs) w
-                 && match sel with Some items => forallb (fun it => cols_in cs (fst it)) items | None => true end
-              then Some (QSel f' w (match sel with
-                                    | None => if is_name f then Some (passthrough cs) else None
-                                    | s => s end) d)
-              else None
-          | None => Some (QSel f' w sel d)
-          end
+          if refs_ok info ne f (sel_refs w sel)
+          then Some (QSel f' w (match sel with
+                                | None => if is_join f then None
+                                          else match from_cols info f with
+                                               | Some cs => Some (passthrough cs)
+                                               | None => None
+                                               end
+                                | s => s end) d)
+          else None
       end
   | QAgg f w ks ag =>
-      match qualify_from cache U f with
+      match qualify_from info ne f with
       | None => None
-      | Some f' =>
-          match scope_cols cache U f with
-          | Some cs =>
-              if forallb (cols_in cs) w && forallb (fun k => mem (fst k) cs) ks
-                 && forallb (fun a => match fst a with ASum c => mem c cs | ACountStar => true end) ag
-              then Some (QAgg f' w ks ag) else None
-          | None => Some (QAgg f' w ks ag)
-          end
+      | Some f' => if refs_ok info ne f (agg_refs w ks ag) then Some (QAgg f' w ks ag) else None
       end
   end
-with qualify_from cache U (f : from) : option from :=
+with qualify_from (info : colinfo) (ne : bool) (f : from) : option from :=
   match f with
   | FName n => Some (FName n)
   | FVal fr => Some (FVal fr)
-  | FSub q => option_map FSub (qualify_sq cache U q)
+  | FSub q => option_map FSub (qualify_sq info ne q)
   | FJoin l la r ra on =>
-      match qualify_from cache U l, qualify_from cache U r with
-      | Some l', Some r' =>
-          match scope_cols cache U f with
-          | Some cs => if cols_in cs on then Some (FJoin l' la r' ra on) else None
-          | None => Some (FJoin l' la r' ra on)
-          end
+      match qualify_from info ne l, qualify_from info ne r with
+      | Some l', Some r' => if refs_ok info ne f (ecols on) then Some (FJoin l' la r' ra on) else None
       | _, _ => None
       end
   end.
 
-Fixpoint qualify_ctes cache U (l : list (string * sq)) : option (list (string * sq)) :=
+Fixpoint qualify_ctes (info : colinfo) (ne : bool) (l : list (string * sq))
+  : option (list (string * sq) * colinfo) :=
   match l with
-  | [] => Some []
+  | [] => Some ([], info)
   | (n, b) :: l' =>
-      match qualify_sq cache U b, qualify_ctes cache U l' with
-      | Some b', Some l'' => Some ((n, b') :: l'')
-      | _, _ => None
+      match qualify_sq info ne b with
+      | None => None
+      | Some b' =>
+          match qualify_ctes (info_upd info n (out_cols_sq info b)) ne l' with
+          | Some (l'', info') => Some ((n, b') :: l'', info')
+          | None => None
+          end
       end
   end.
 Definition qualify (cache : list (string * list string)) (q : query) : option query :=
-  let U := map fst (q_ctes q) in
-  match qualify_ctes cache U (q_ctes q), qualify_sq cache U (q_main q) with
-  | Some cs, Some m => Some (mkQuery cs m)
-  | _, _ => None
+  let ne := nonempty cache in
+  match qualify_ctes (cache_cols cache) ne (q_ctes q) with
+  | Some (cs, info) =>
+      match qualify_sq info ne (q_main q) with
+      | Some m => Some (mkQuery cs m)
+      | None => None
+      end
+  | None => None
   end.
 
 (** the parser lower-cases every unquoted identifier of the query (table names, CTE names) *)
@@ -201,8 +235,10 @@ Section Machine.
             let key := norm_key (c_reg_norm c) name in
             let d' := if c_frozen c then freeze (fresh (s_next st)) d else d in
             let cs := static_cols (d_leaf d') in
-            (* temp_views[name] = df happens before catalog.add_table, which raises on a `*` column *)
-            if has_star cs
+            (* temp_views[name] = df happens before catalog.add_table; add_table returns early when the key
+               is cached and otherwise raises on a `*` column *)
+            let hit := c_add_if_absent c && is_some (assoc key (s_cache st)) in
+            if negb hit && has_star cs
             then (mkSt (if c_assign_first c then (key, d') :: s_views st else s_views st)
                        (s_cache st) (s_heap st) (S (s_next st)), OErr)
             else (mkSt ((key, d') :: s_views st) (cache_add c key cs (s_cache st)) (s_heap st) (S (s_next st)), ONone)
@@ -217,7 +253,7 @@ Section Machine.
               let cs := match assoc key cache' with Some cs => cs | None => cols fr end in
               let d := mkDf [] (QSel (FName key) [] (Some (passthrough cs)) false) in
               (mkSt (s_views st) cache' (s_heap st ++ [Some d]) (s_next st), ODf d)
-          | None => (push st None 0, OErr)
+          | None => (mkSt (s_views st) (cache_add c key [] (s_cache st)) (s_heap st ++ [None]) (s_next st), OErr)
           end in
         match (if c_views_first c then assoc key (s_views st) else None) with
         | Some d => (push st (Some d) 0, ODf d)
@@ -355,7 +391,7 @@ Section Machine.
   Proof.
     intros Hc Hh. destruct (cfg_ok_inv Hc) as [Hf [_ [Hr _]]].
     cbn [mstep]. rewrite Hh, Hr. cbn [norm_key]. unfold stored. rewrite Hf.
-    destruct (has_star _); cbn [fst snd s_views assoc]; [discriminate|].
+    destruct (negb _ && has_star _); cbn [fst snd s_views assoc]; [discriminate|].
     intros _. rewrite String.eqb_refl; reflexivity.
   Qed.
 
